@@ -289,6 +289,40 @@ def _malformed(draw):
     return {"private": private, "via": "hex" if which == "pyvalue-hex" else "bytes", "value": v, "kind": "pyvalue"}
 
 
+_REPO = {"info": {}, "packages": {"a-1.0-0.tar.bz2": {"name": "a", "version": "1.0", "depends": []}}, "packages.conda": {}}
+
+
+def _offer_to_signer(v, case):
+    """The consumer of private-key hex strings: sign_all_in_repodata.  The malformed string is offered three times in a row,
+    after a run with a valid key in two of three cases: every offer must be refused, and the file must stay as it is."""
+    import shutil
+    import tempfile
+    from conda_content_trust import signing as S
+    d = tempfile.mkdtemp(prefix="c19m-")
+    try:
+        fn = os.path.join(d, "repodata.json")
+        with open(fn, "wb") as fobj:
+            fobj.write(canon(_REPO))
+        if len(v) % 3:
+            S.sign_all_in_repodata(fn, keys.POOL[len(v) % 5].hex())
+        data = open(fn, "rb").read()
+        for i in range(3):
+            try:
+                S.sign_all_in_repodata(fn, v)
+            except (TypeError, ValueError):
+                if open(fn, "rb").read() != data:
+                    raise Violation("sign_all_in_repodata refused the malformed key %r but changed the file" % (v,),
+                                    bucket="malformed encoding: file changed")
+                continue
+            except Exception as e:
+                raise Violation("sign_all_in_repodata with the malformed private key %r (%s), offer %d: raised %s instead of TypeError/ValueError"
+                                % (v, case["kind"], i + 1, type(e).__name__), bucket="malformed encoding: wrong error " + type(e).__name__)
+            raise Violation("sign_all_in_repodata accepted the malformed private key %r (%s) when it was offered the %s time"
+                            % (v, case["kind"], ["first", "second", "third"][i]), bucket="malformed encoding accepted")
+    finally:
+        shutil.rmtree(d, ignore_errors=True)
+
+
 def check_malformed(case):
     cls = C.PrivateKey if case["private"] else C.PublicKey
     v = GP.realize(case["value"])
@@ -315,6 +349,8 @@ def check_malformed(case):
     try:
         r = f(v)
     except (TypeError, ValueError):
+        if case["via"] == "hex" and case["private"] and type(v) is str:
+            _offer_to_signer(v, case)
         return {"nontrivial": case["kind"] != "pyvalue", "labels": ["via=" + case["via"], "kind=" + case["kind"]]}
     except Exception as e:
         raise Violation("%s(%r) raised %s instead of TypeError/ValueError" % (f.__qualname__, v, type(e).__name__),
